@@ -73,6 +73,26 @@ class C17(scen.WorldProp):
                   "bot": bot, "rhythm": scen.rhythm_cfg("wait", inertia=1.0 if server else 0.5, peal_speed=ps)}
             yield {"k": "world", "scenario": sc, "final_size": cur, "queued": queued, "server": server}
 
+        # two touches on towers of different sizes: the second is timed for the new size (rhythm re-initialised)
+        for _ in range(15 if tier == "quick" else 150):
+            N1, N2 = rng.sample([4, 5, 6, 8, 10, 12], 2)
+            stage = rng.randint(3, min(N1, N2))
+            ps = rng.choice([60, 90])
+            g = rng.choice([0.0, 1.0, 1.0, 2.0])
+            t0 = 1000.0 + rng.random()
+            I1 = scen.interval(ps, N1)
+            t_stand = t0 + 3 + rng.uniform(2.2, 5.5) * I1 * (N1 + 1)
+            t1 = t_stand + 2 * I1 * (N1 + 2) + 1.5 + rng.random()
+            I2 = scen.interval(ps, N2)
+            rows2 = rng.randint(3, 7)
+            events = [call(t0, LOOK_TO), call(t_stand, scen.STAND),
+                      [t1 - 0.6, "msg", {"m": "size_change", "size": N2}], call(t1, LOOK_TO)]
+            sc = {"start": 999.0, "end": t1 + 3 + I2 * scen.blow_index(N2, g, rows2, 0) + 0.5 * I2, "tower_size": N1,
+                  "events": events, "on_join": [],
+                  "bot": scen.bot_cfg({"type": "plainhunt", "stage": stage, "start_row": None}, up_down_in=True),
+                  "rhythm": scen.rhythm_cfg(rng.choice(["wait", "regression"]), inertia=0.5, peal_speed=ps, gap=g)}
+            yield {"k": "world", "scenario": sc, "final_size": N2, "queued": None, "server": False,
+                   "second": {"t1": t1, "N": N2, "I": I2, "gap": g}}
         # server mode: a selection discarded by a shrink, the tower grown back, the same selection made again
         for _ in range(12 if tier == "quick" else 120):
             N = rng.choice([6, 8, 10])
@@ -110,6 +130,25 @@ class C17(scen.WorldProp):
         sc = req["scenario"]
         if reply["crashed"] or reply["handler_crashes"]:
             return f"crash: main={reply['crashed']} handlers={reply['handler_crashes']}"
+        if req.get("second"):
+            # the second touch, rung by Wheatley alone on the new tower size, is timed for that size
+            sec = req["second"]
+            N2, I2, gap, t1 = sec["N"], sec["I"], sec["gap"], sec["t1"]
+            rings2 = [x for x in scen.rings(reply) if x[0] >= t1]
+            if len(rings2) < N2:
+                return f"after the size change to {N2} Wheatley rang {len(rings2)} strikes of the second touch"
+            for k, (t, b, h) in enumerate(rings2):
+                r, p = divmod(k, N2)
+                want = t1 + 3 + I2 * scen.blow_index(N2, gap, r, p)
+                if abs(t - want) > 2e-6:
+                    return (f"second touch on {N2} bells: strike {k} (row {r}, place {p}) at {t - t1:.6f} s after Look To, "
+                            f"the rhythm for {N2} bells gives {want - t1:.6f}")
+            stage = sc["bot"]["gen"]["stage"]
+            bells = [b for (t, b, h) in rings2]
+            for i in range(0, len(bells) - len(bells) % N2, N2):
+                if bells[i:i + N2][stage:] != list(range(stage + 1, N2 + 1)):
+                    return f"second touch on {N2} bells: row {i // N2} = {bells[i:i + N2]}: the covers are not {list(range(stage + 1, N2 + 1))}"
+            return None
         N = req["final_size"]
         g = req["queued"] or sc["bot"]["gen"]
         # the queued generator may have been discarded by a later size change that made it too big
